@@ -33,7 +33,8 @@ Record geo_case := mk_geo {
   g_vii : list bool; g_voi : list bool; g_idx : list Z;          (* observed get_neighbour_info *)
   g_sxyz : list xyzF; g_txyz : list xyzF;                        (* observed cartesian coordinates of the valid points *)
   g_r : float;                                                   (* radius_of_influence *)
-  g_tol : Z * Z                                                  (* (a, b): accepted slack a/b on squared distances *)
+  g_tol : Z * Z * Z                                              (* (a, b, k): accepted slack a/b on squared distances; k >= 0:
+                                                                    additional absolute slack (2^-k m)^2, k < 0: none *)
 }.
 
 (* ---- fast, proved-sound form of [accept_list] on coordinates (Proofs/C02_fast.v: accept_fast_sound) ----
@@ -46,21 +47,21 @@ Definition lb1 (xc yc : Z) : Z := let dd := Z.abs (xc - yc) - 1 in if dd <=? 0 t
 Definition lbd (pc qc : xyzZ) : Z :=
   let '(x, y, z) := pc in let '(x', y', z') := qc in lb1 x x' + lb1 y y' + lb1 z z'.
 Definition cdivZ (num den : Z) : Z := (num + den - 1) / den.
-Definition far_enough (a bound thr : Z) (tf tc : xyzZ) (s : xyzZ * xyzZ) : bool :=
-  if thr <=? lbd tc (snd s) then true else bound <=? a * sqd tf (fst s).   (* [if]: the VM evaluates both arguments of || *)
+Definition far_enough (a c bound thr : Z) (tf tc : xyzZ) (s : xyzZ * xyzZ) : bool :=
+  if thr <=? lbd tc (snd s) then true else bound <=? a * sqd tf (fst s) + c.   (* [if]: the VM evaluates both arguments of || *)
 Definition with_coarse (u : Z) (srcs : list xyzZ) : list (xyzZ * xyzZ) := map (fun q => (q, coarse u q)) srcs.
 Definition pt0 : xyzZ * xyzZ := ((0, 0, 0), (0, 0, 0)).
-Definition accept_fast (a b r2 u : Z) (tf : xyzZ) (srcs : list (xyzZ * xyzZ)) (i : nat) : bool :=
-  (0 <? a) && (0 <? u) &&
+Definition accept_fast (a b c r2 u : Z) (tf : xyzZ) (srcs : list (xyzZ * xyzZ)) (i : nat) : bool :=
+  (0 <? a) && (0 <? u) && (0 <=? c) &&
   (let tc := coarse u tf in
    if (i <? length srcs)%nat
    then let bound := b * sqd tf (fst (nth i srcs pt0)) in
         let thr := cdivZ bound (a * (u * u)) in
-        forallb (far_enough a bound thr tf tc) srcs && (bound <=? a * r2)
+        forallb (far_enough a c bound thr tf tc) srcs && (bound <=? a * r2 + c)
    else (i =? length srcs)%nat &&
         (let bound := b * r2 in
          let thr := cdivZ bound (a * (u * u)) in
-         forallb (far_enough a bound thr tf tc) srcs)).
+         forallb (far_enough a c bound thr tf tc) srcs)).
 
 (* every observed index is an acceptable answer for the exact distance table *)
 Definition accept_all (g : geo_case) : bool :=
@@ -70,9 +71,10 @@ Definition accept_all (g : geo_case) : bool :=
   let sz := with_coarse u (map (scale3 E) (g_sxyz g)) in
   let tz := map (scale3 E) (g_txyz g) in
   let R := scaleZ E (g_r g) in
-  let '(a, b) := g_tol g in
+  let '(a, b, k) := g_tol g in
+  let c := if k <? 0 then 0 else let h := Z.shiftl 1 (Z.max 0 (- k - E)) in h * h in   (* (2^-k m)^2 in fine units *)
   forallb f_isfinite fl &&
-  list_eqb (fun t i => accept_fast a b (R * R) u t sz (Z.to_nat i)) tz (g_idx g).
+  list_eqb (fun t i => accept_fast a b c (R * R) u t sz (Z.to_nat i)) tz (g_idx g).
 
 Definition geo_code (g : geo_case) : Z :=
   let vin := valid_input_index F64 (g_slon g) (g_slat g) in
